@@ -1,5 +1,101 @@
 from common import Rng
 
+# boundary / switch buckets of lean/Rbgp/Policy/Stats.lean that every quick run is expected to hit (>= 4 cases in each of
+# seeds 1..8 when the list was made); one that stays at zero is listed under coverage_gaps in the evidence
+EXPECT_BUCKETS = [
+    "aa-accumulate-invalid", "aa-accumulate-ok", "aa-no-policies", "af-hit", "af-miss", "al-above1", "al-below1",
+    "al-cmp-eq", "al-cmp-ge", "al-cmp-le", "al-eq", "al-len-ge-256", "al-noattr", "ar-inc-hi-above1", "ar-inc-hi-eq",
+    "ar-inc-inverted", "ar-inc-lo-below1", "ar-inc-lo-eq", "ar-inc-point", "ar-inc-subject-empty", "ar-left-hi-above1",
+    "ar-left-hi-eq", "ar-left-inverted", "ar-left-lo-below1", "ar-left-lo-eq", "ar-left-point", "ar-left-subject-empty",
+    "ar-only-hi-above1", "ar-only-hi-eq", "ar-only-inverted", "ar-only-len1", "ar-only-len2", "ar-only-lo-below1",
+    "ar-only-lo-eq", "ar-only-point", "ar-only-subject-empty", "ar-orig-hi-above1", "ar-orig-hi-eq", "ar-orig-inverted",
+    "ar-orig-lo-below1", "ar-orig-lo-eq", "ar-orig-point", "ar-orig-subject-empty", "as-all-mixed", "as-inc-above1",
+    "as-inc-below1", "as-inc-eq", "as-inc-subject-empty", "as-left-above1", "as-left-below1", "as-left-eq",
+    "as-left-subject-empty", "as-no-policies", "as-noattr", "as-only-above1", "as-only-below1", "as-only-eq", "as-only-len1",
+    "as-only-len2", "as-only-subject-empty", "as-orig-above1", "as-orig-below1", "as-orig-eq", "as-orig-subject-empty",
+    "as-over-existing-invalid", "as-over-existing-ok", "as-set-has-regex", "asg-needs-rpki", "asg-no-policies",
+    "asg-policy-no-statements", "ca-add", "ca-existing-none", "ca-list-empty", "ca-remove", "ca-replace", "ca-result-empty",
+    "ca-result-gt255B", "cc-above1", "cc-below1", "cc-cmp-eq", "cc-cmp-ge", "cc-cmp-le", "cc-eq", "cs-comm-all-every",
+    "cs-comm-all-mixed", "cs-comm-route-has-none", "cs-ext-all-mixed", "cs-ext-route-has-none", "cs-large-all-mixed",
+    "cs-large-route-has-none", "d-override-and-global-export", "d-override-v6-peer", "dop-asgadd-global-invalid",
+    "dop-asgadd-global-ok", "dop-asgadd-peer-accumulate-invalid", "dop-asgadd-peer-accumulate-ok", "dop-asgadd-peer-invalid",
+    "dop-asgadd-peer-ok", "dop-asgadd-unknown-peer", "dop-asgdel-global-all-ok", "dop-asgdel-global-partial-notfound",
+    "dop-asgdel-global-partial-ok", "dop-asgdel-peer-all-invalid", "dop-asgdel-peer-all-ok",
+    "dop-asgdel-peer-partial-invalid", "dop-asgdel-peer-partial-notfound", "dop-asgdel-peer-partial-ok",
+    "dop-asgset-global-invalid", "dop-asgset-global-ok", "dop-asgset-peer-invalid", "dop-asgset-peer-ok",
+    "dop-asgset-peer-over-existing-invalid", "dop-asgset-peer-over-existing-ok", "dop-peer-import-refused",
+    "dop-peeradd-plain-exists", "dop-peeradd-plain-ok", "dop-peeradd-with-policy-exists", "dop-peeradd-with-policy-invalid",
+    "dop-peeradd-with-policy-ok", "dop-peerdel-exists", "dop-peerdel-ok", "dop-peerdel-with-override", "dop-poladd-inuse",
+    "dop-poladd-invalid", "dop-poladd-ok", "dop-poladd-peer-referenced", "dop-poldel-inuse", "dop-poldel-notfound",
+    "dop-poldel-ok", "dop-poldel-peer-referenced", "dop-setpolicies-clears-override-invalid",
+    "dop-setpolicies-clears-override-ok", "dop-setpolicies-invalid", "dop-setpolicies-ok", "ea-add", "ea-existing-none",
+    "ea-list-empty", "ea-remove", "ea-replace", "ea-result-empty", "ea-result-gt255B", "ex-encap", "ex-lb", "ex-other",
+    "ex-rt2", "ex-rt4", "ex-rtip", "ex-soo2", "ex-soo4", "ex-sooip", "ex-validation", "ex-validation-unknown", "la-add",
+    "la-existing-none", "la-list-empty", "la-remove", "la-replace", "la-result-empty", "la-result-gt255B", "lp-above1",
+    "lp-absent", "lp-absent-vs-0", "lp-below1", "lp-eq", "lp-present-0", "lpa-0", "lpa-max", "md-absent", "md-sum-0",
+    "md-sum-m1", "md-sum-max", "md-sum-max1", "md-v-0", "md-v-i32max", "md-v-i32max1", "md-v-i32min", "md-v-i32min1",
+    "md-v-i64max", "md-v-i64min", "md-v-wide", "me-above1", "me-absent", "me-absent-vs-0", "me-below1", "me-eq",
+    "me-present-0", "mr-0", "mr-max", "mr-max1", "mr-neg", "mr-wide", "name-shared-other-kind-inuse-inuse",
+    "name-shared-other-kind-inuse-notfound", "name-shared-other-kind-inuse-ok", "nb-after", "nb-before", "nb-fam-mismatch",
+    "nb-first", "nb-host-net", "nb-last", "nb-zero-net", "nh-none", "nha-addr4", "nha-peer4", "nha-peer6", "nha-self4",
+    "nha-self6", "nha-unchanged-some", "nhc-fam-mismatch", "nhc-hit", "nhc-miss", "nhc-none", "oa-0", "oa-1", "oa-2",
+    "oa-out-of-range", "op-asgadd-invalid", "op-asgadd-ok", "op-asgdel-all-ok", "op-asgdel-partial-notfound",
+    "op-asgdel-partial-ok", "op-asgset-invalid", "op-asgset-ok", "op-poladd-inuse", "op-poladd-invalid", "op-poladd-ok",
+    "op-poldel-all-cleanup-inuse", "op-poldel-all-cleanup-notfound", "op-poldel-all-cleanup-ok",
+    "op-poldel-all-preserve-inuse", "op-poldel-all-preserve-notfound", "op-poldel-all-preserve-ok",
+    "op-poldel-partial-cleanup-inuse", "op-poldel-partial-cleanup-notfound", "op-poldel-partial-cleanup-ok",
+    "op-poldel-partial-preserve-inuse", "op-poldel-partial-preserve-notfound", "op-poldel-partial-preserve-ok",
+    "op-setadd-aspath-inuse", "op-setadd-aspath-invalid", "op-setadd-aspath-ok", "op-setadd-comm-inuse",
+    "op-setadd-comm-invalid", "op-setadd-comm-ok", "op-setadd-ext-inuse", "op-setadd-ext-invalid", "op-setadd-ext-ok",
+    "op-setadd-large-inuse", "op-setadd-large-invalid", "op-setadd-large-ok", "op-setadd-neighbor-inuse",
+    "op-setadd-neighbor-invalid", "op-setadd-neighbor-ok", "op-setadd-prefix-inuse", "op-setadd-prefix-invalid",
+    "op-setadd-prefix-ok", "op-setdel-aspath-all-inuse", "op-setdel-aspath-all-notfound", "op-setdel-aspath-all-ok",
+    "op-setdel-aspath-partial-inuse", "op-setdel-aspath-partial-invalid", "op-setdel-aspath-partial-notfound",
+    "op-setdel-aspath-partial-ok", "op-setdel-comm-all-inuse", "op-setdel-comm-all-notfound", "op-setdel-comm-all-ok",
+    "op-setdel-comm-partial-inuse", "op-setdel-comm-partial-invalid", "op-setdel-comm-partial-notfound",
+    "op-setdel-comm-partial-ok", "op-setdel-ext-all-inuse", "op-setdel-ext-all-notfound", "op-setdel-ext-all-ok",
+    "op-setdel-ext-partial-inuse", "op-setdel-ext-partial-invalid", "op-setdel-ext-partial-notfound",
+    "op-setdel-ext-partial-ok", "op-setdel-large-all-inuse", "op-setdel-large-all-notfound", "op-setdel-large-all-ok",
+    "op-setdel-large-partial-inuse", "op-setdel-large-partial-invalid", "op-setdel-large-partial-notfound",
+    "op-setdel-large-partial-ok", "op-setdel-neighbor-all-inuse", "op-setdel-neighbor-all-notfound",
+    "op-setdel-neighbor-all-ok", "op-setdel-neighbor-partial-inuse", "op-setdel-neighbor-partial-notfound",
+    "op-setdel-neighbor-partial-ok", "op-setdel-prefix-all-inuse", "op-setdel-prefix-all-notfound",
+    "op-setdel-prefix-all-ok", "op-setdel-prefix-partial-inuse", "op-setdel-prefix-partial-notfound",
+    "op-setdel-prefix-partial-ok", "op-setreplace-aspath-inuse", "op-setreplace-aspath-invalid", "op-setreplace-aspath-ok",
+    "op-setreplace-comm-inuse", "op-setreplace-comm-invalid", "op-setreplace-comm-ok", "op-setreplace-ext-inuse",
+    "op-setreplace-ext-invalid", "op-setreplace-ext-ok", "op-setreplace-large-inuse", "op-setreplace-large-invalid",
+    "op-setreplace-large-ok", "op-setreplace-neighbor-inuse", "op-setreplace-neighbor-invalid", "op-setreplace-neighbor-ok",
+    "op-setreplace-prefix-inuse", "op-setreplace-prefix-invalid", "op-setreplace-prefix-ok", "op-stmtadd-inuse",
+    "op-stmtadd-invalid", "op-stmtadd-ok", "op-stmtdel-all-inuse", "op-stmtdel-all-notfound", "op-stmtdel-all-ok",
+    "op-stmtdel-partial-inuse", "op-stmtdel-partial-invalid", "op-stmtdel-partial-notfound", "op-stmtdel-partial-ok",
+    "opt-aspath-all", "opt-aspath-any", "opt-aspath-invert", "opt-comm-all", "opt-comm-any", "opt-comm-invert",
+    "opt-ext-all", "opt-ext-any", "opt-ext-invert", "opt-large-all", "opt-large-any", "opt-large-invert", "opt-neighbor-any",
+    "opt-neighbor-invert", "opt-prefix-any", "opt-prefix-invert", "or-above1", "or-absent", "or-absent-vs-0", "or-below1",
+    "or-cond-out-of-range", "or-eq", "or-present-0", "origin-absent", "pa-append-inuse", "pa-append-invalid", "pa-append-ok",
+    "pa-no-statements", "path-absent", "path-empty", "path-first-seg-empty", "path-flat-empty", "path-has-confed-seq",
+    "path-has-confed-set", "path-has-set", "path-seg-254", "path-seg-255", "pe4-hi-above1", "pe4-hi-below1", "pe4-hi-eq",
+    "pe4-hi-gt-width", "pe4-len-above1", "pe4-len-below1", "pe4-len-eq", "pe4-lo-above1", "pe4-lo-below1", "pe4-lo-eq",
+    "pe4-lo-lt-len", "pe4-longer-inrange", "pe4-nested", "pe4-nested-longest-out", "pe4-range-inverted", "pe6-hi-above1",
+    "pe6-hi-below1", "pe6-hi-eq", "pe6-hi-gt-width", "pe6-len-above1", "pe6-len-below1", "pe6-len-eq", "pe6-lo-above1",
+    "pe6-lo-below1", "pe6-lo-eq", "pe6-lo-lt-len", "pe6-longer-inrange", "pe6-nested", "pe6-nested-longest-out",
+    "pe6-range-inverted", "pn4-mask-0", "pn4-mask-max", "pn6-mask-0", "pn6-mask-max", "pp-confed", "pp-cross-by1",
+    "pp-empty-path", "pp-fill-255", "pp-first-full", "pp-first-othertype", "pp-lm", "pp-lm-empty-path",
+    "pp-lm-first-seg-empty", "pp-lm-flat-empty", "pp-noattr", "pp-rep0", "pp-rep1", "pz4-hi-above1", "pz4-hi-below1",
+    "pz4-hi-eq", "pz4-lo-above1", "pz4-lo-below1", "pz4-lo-eq", "pz6-hi-above1", "pz6-hi-below1", "pz6-hi-eq",
+    "pz6-lo-above1", "pz6-lo-below1", "pz6-lo-eq", "rp-eq", "rp-ne", "rp-none", "rpki-invalid", "rpki-none", "rpki-notfound",
+    "rpki-valid", "rt-asn-eq", "rt-asn-ne", "rt-src-local", "sa-existing-inuse", "sa-merge-aspath-invalid",
+    "sa-merge-aspath-ok", "sa-merge-comm-invalid", "sa-merge-comm-ok", "sa-merge-ext-invalid", "sa-merge-ext-ok",
+    "sa-merge-large-invalid", "sa-merge-large-ok", "sa-merge-neighbor-ok", "sa-merge-prefix-invalid", "sa-merge-prefix-ok",
+    "sa-no-elems-inuse", "sa-no-elems-invalid", "sa-no-elems-ok", "sd-partial-aspath-regex", "sd-partial-comm",
+    "sd-partial-ext", "sd-partial-large", "sd-partial-nbr", "sd-partial-nbr-missing", "sd-partial-pfx-missing",
+    "sd-partial-pfx-other-range", "sd-partial-pfx4", "sd-partial-pfx6", "sd-partial-single", "sd-partial-single-missing",
+    "sd-partial-to-empty", "sd-partial-zero4", "sd-partial-zero4-missing", "sd-partial-zero6", "sd-partial-zero6-missing",
+    "sr-existing-inuse", "sr-existing-unref-invalid", "sr-existing-unref-ok", "sr-fresh-invalid", "sr-fresh-ok", "src-local",
+    "st-merge-inuse", "st-merge-invalid", "st-merge-ok", "wk-accept-own", "wk-blackhole", "wk-graceful-shutdown",
+    "wk-llgr-stale", "wk-mixed-case", "wk-no-advertise", "wk-no-export", "wk-no-export-subconfed", "wk-no-llgr",
+    "wk-no-peer",
+]
+
 CONFIG = dict(
     level_text="Kernel-checked Lean theorems about a hand-written model of table/src/policy.rs (conditions, AS-path patterns, "
                "match options, statement/policy/assignment chaining, all actions, every PolicyTable CRUD call) and the AS_PATH "
@@ -104,11 +200,15 @@ CONFIG = dict(
         "as-prepend repeat is a u32: the loop is unbounded in practice (generated <= 300)",
         "replace_defined_set removes the old set before add_defined_set validates the new contents: a failing replace of an UNREFERENCED set deletes it (modelled as is; not a violation of the statement)"],
     assumptions=["probe attribute vectors are values Attribute::decode produces (Spec.pathOk); the reference says nothing about others"],
+    oracle_stats=True,
+    expect_judged=EXPECT_BUCKETS,
     claimed=True,
 )
 
 # ---------------------------------------------------------------- small colliding domains
 ASNS = [65001, 65002, 65003, 100, 4200000001]
+# members around the bounds of the range patterns (100-200, 65001-65002, 0-4294967295, ...)
+EDGE_ASNS = [99, 200, 201, 65000, 4294967295, 150, 101, 199]
 
 
 def v4(a, b, c, d):
@@ -125,6 +225,7 @@ def A6(n):
 
 V6A = 0x20010db8 << 96
 V6B = (0x20010db8 << 96) | (1 << 80)
+V6C = 0x20010db9 << 96          # outside 2001:db8::/32, inside 2001:db8::/31
 
 # (addr term, mask, family width)
 SET_PREFIXES = [
@@ -132,16 +233,56 @@ SET_PREFIXES = [
     (A4(v4(10, 1, 1, 128)), 25, 32), (A4(v4(192, 168, 0, 0)), 16, 32), (A4(0), 0, 32),
     (A4(v4(10, 0, 0, 0)), 7, 32), (A4(v4(10, 1, 1, 1)), 32, 32), (A4(v4(10, 1, 0, 0)), 20, 32),
     (A6(V6A), 32, 128), (A6(V6B), 48, 128), (A6(0), 0, 128),
+    # one bit longer / shorter than a generated route with the same address bits, /1, /31, /32, /127, /128
+    (A4(v4(10, 1, 1, 0)), 25, 32), (A4(v4(10, 1, 1, 0)), 31, 32), (A4(v4(10, 1, 1, 0)), 32, 32), (A4(0), 1, 32),
+    (A4(v4(128, 0, 0, 0)), 1, 32), (A4(v4(10, 1, 0, 0)), 17, 32),
+    (A6(V6A), 33, 128), (A6(V6A), 48, 128), (A6(V6B), 49, 128), (A6(V6A), 31, 128), (A6(V6A), 127, 128),
+    (A6(V6A | 1), 128, 128), (A6(0), 1, 128),
 ]
 ROUTE_NETS = [
     (A4(v4(10, 1, 1, 0)), 24), (A4(v4(10, 1, 0, 0)), 16), (A4(v4(10, 0, 0, 0)), 8), (A4(v4(10, 1, 1, 128)), 25),
     (A4(v4(10, 1, 1, 1)), 32), (A4(v4(192, 168, 1, 0)), 24), (A4(v4(172, 16, 0, 0)), 12), (A4(0), 0),
     (A4(v4(10, 1, 1, 0)), 28), (A4(v4(10, 1, 17, 0)), 20), (A4(v4(11, 0, 0, 0)), 8),
     (A6(V6B), 48), (A6(V6A), 32), (A6(V6B | (1 << 64)), 64), (A6(0), 0),
+    (A4(v4(10, 1, 1, 0)), 25), (A4(v4(10, 1, 1, 0)), 31), (A4(v4(10, 1, 1, 0)), 32), (A4(0), 1), (A4(v4(128, 0, 0, 0)), 1),
+    (A4(v4(10, 1, 0, 0)), 23), (A4(v4(10, 1, 0, 0)), 17),
+    (A6(V6A), 33), (A6(V6A), 31), (A6(V6A), 48), (A6(V6A), 47), (A6(V6B), 49), (A6(V6A), 127), (A6(V6A), 128),
+    (A6(V6A | 1), 128), (A6(0), 1), (A6(V6C), 32),
 ]
+V4_MASKS = sorted({m for a, m in ROUTE_NETS if a.startswith("(4")})
+V6_MASKS = sorted({m for a, m in ROUTE_NETS if a.startswith("(6")})
+
+
+def _num(term):
+    """(v6, value) of an address term"""
+    f, v = term.strip("()").split(" ")
+    return f == "6", int(v)
+
+
+def _top(v6, val, n):
+    return 0 if n == 0 else val >> ((128 if v6 else 32) - n)
+
+
+def addr_covered(entry, net):
+    """the entry's network contains the ADDRESS of the route (what the lookup table returns), whatever the lengths"""
+    (e6, ev), em = _num(entry[0]), entry[1]
+    (n6, nv) = _num(net[0])
+    return e6 == n6 and _top(e6, ev, em) == _top(n6, nv, em)
+
+
+# the nets of the probes of the case being generated: set entries and ranges are aimed at them
+_TARGETS = []
+
+
+def related_entries():
+    return [e for e in SET_PREFIXES if any(addr_covered(e, t) for t in _TARGETS)]
 PEERS = [A4(v4(192, 0, 2, 1)), A4(v4(192, 0, 2, 2)), A4(v4(198, 51, 100, 7)), A6(V6A | 1)]
+# the peer address of a probe: also first / last address of a neighbor net and the addresses next to it
+PROBE_PEERS = PEERS + [A4(v4(198, 51, 100, 0)), A4(v4(198, 51, 100, 255)), A4(v4(198, 51, 101, 0)), A4(v4(198, 51, 99, 255)),
+                       A4(v4(192, 0, 2, 0)), A6(V6A | 2), A6(V6A), A6(V6C), A6(V6A - 1), A6(V6B | 7)]
 NEIGHBOR_NETS = [(A4(v4(192, 0, 2, 0)), 24), (A4(v4(192, 0, 2, 1)), 32), (A4(v4(198, 51, 100, 0)), 24),
-                 (A4(v4(192, 0, 2, 0)), 31), (A6(V6A), 32), (A4(0), 0)]
+                 (A4(v4(192, 0, 2, 0)), 31), (A6(V6A), 32), (A4(0), 0),
+                 (A6(V6A | 1), 128), (A6(V6B), 48), (A6(0), 0), (A4(v4(198, 51, 100, 0)), 25)]
 NEXTHOPS = [A4(v4(192, 0, 2, 1)), A4(v4(192, 0, 2, 2)), A4(v4(10, 9, 9, 9)), A6(V6A | 1), A6(V6A | 2)]
 
 
@@ -149,20 +290,34 @@ def comm(hi, lo):
     return (hi << 16) | lo
 
 
+WELL_KNOWN = {"graceful-shutdown": 0xffff0000, "accept-own": 0xffff0001, "llgr-stale": 0xffff0006, "no-llgr": 0xffff0007,
+              "blackhole": 0xffff029a, "no-export": 0xffffff01, "no-advertise": 0xffffff02, "no-export-subconfed": 0xffffff03,
+              "no-peer": 0xffffff04}
 COMMS = [comm(65001, 100), comm(65001, 200), comm(65002, 100), comm(0, 5), 0xffffff01, 0xffff029a, comm(65001, 150)]
 COMM_PATS = ["65001:100", str(comm(65001, 200)), "^65001:.*$", "65001:.*", ".*", "no-export", "NO-EXPORT", "blackhole",
              "^6500.:100$", "6500\\d:100", "65001:1\\d\\d", "65002:100", "0:5", "^x$", "65001:1.0", "\\d+:200"]
-BAD_PATS = ["*bad", "+1"]
+# every well-known name (and a mixed-case spelling of it); the probes carry the communities they stand for
+WK_PATS = list(WELL_KNOWN) + ["No-Peer", "GRACEFUL-SHUTDOWN", "Accept-Own", "LLGR-stale", "NO-LLGR", "No-Advertise", "NO-EXPORT-SUBCONFED"]
+BAD_PATS = ["*bad", "+1", "rt:[", "[x"]
+# invalid only after `parse_community` has wrapped it in ^...$ (the digit:digit branch)
+COMM_BAD_PATS = ["*bad", "65001:1[", "[65001:100"]
 EXTS = ["0002fde900000064", "0002fde9000000c8", "0003fde900000064", "0202fde9000a0064", "0102c00002010064",
         "030c000000000008", "4300000000000000", "4300000000000001", "4300000000000002", "4300000000000003",
-        "9900000000000001", "0002fdea00000064"]
+        "9900000000000001", "0002fdea00000064",
+        # 4-octet-AS and IPv4 site-of-origin, link bandwidth (whole-number f32: 125000, 0, 1, 16777215)
+        "0203fde9000a0064", "0103c00002010064", "4004fde947f42400", "4004fde900000000", "4004fde93f800000", "4004fde94b7fffff"]
 EXT_PATS = ["^rt:65001:100$", "rt:.*", "^soo:", "validation:valid", "validation:", "encap:\\d+", ".*", "rt:192.0.2.1:100",
-            "^rt:6500.:100$", "^x$", "rt:65001:\\d+$"]
+            "^rt:6500.:100$", "^x$", "rt:65001:\\d+$", "^lb:", "lb:65001:125000$", "lb:\\d+:0$", "^soo:65001:", "soo:192.0.2.1:100",
+            "soo:4259905546:100"]
 LARGES = [(65001, 1, 2), (65001, 1, 3), (65002, 0, 0), (4200000001, 4294967295, 0)]
 LARGE_PATS = ["^65001:1:2$", "^65001:.*$", "65002:0:0", ".*", "^x$", "^\\d+:1:\\d$", "4200000001:"]
 
 SET_NAMES = dict(prefix=["ps1", "ps2"], neighbor=["ns1", "ns2"], aspath=["as1", "as2"], comm=["cs1", "cs2"],
                  ext=["es1"], large=["ls1"])
+# a name that exists in every name space at once (sets of all kinds, a statement, a policy)
+SHARED = "x1"
+# a set nothing refers to (partial deletes are refused on referenced sets)
+FREE = dict(prefix="ps3", neighbor="ns3", aspath="as3", comm="cs3", ext="es3", large="ls3")
 STMT_NAMES = ["s1", "s2", "s3", "s4"]
 POL_NAMES = ["p1", "p2", "p3"]
 KINDS = ["prefix", "neighbor", "aspath", "comm", "ext", "large"]
@@ -192,6 +347,9 @@ PATHS = [
     [(3, [65010]), (2, [65001])], [(4, [65010, 65011]), (2, [100])], [(2, [])], [(2, [100, 100, 100, 65002])],
     [(2, [4200000001])], [(1, [65002]), (2, [65003])], [(3, [65001])], [(2, [65003, 65002, 65001, 100])],
     [(2, [65001]), (4, [])], [(2, [150]), (2, [65001])],
+    # members on / next to the bounds of the range patterns, first and last position
+    [(2, [99])], [(2, [200])], [(2, [201])], [(2, [65000])], [(2, [4294967295])], [(2, [100, 200])], [(2, [200, 100])],
+    [(2, [101, 199])], [(1, [99, 201])], [(2, []), (2, [200])], [(3, [100]), (2, [201])],
 ]
 
 
@@ -206,7 +364,7 @@ def gen_path(r):
     if k < 93:
         return [(2, [65001] * 255), (2, [65002] * r.pick([1, 120]))]
     n = 1 + r.below(4)
-    return [(r.pick([1, 2, 2, 2, 3, 4]), [r.pick(ASNS) for _ in range(r.below(4))]) for _ in range(n)]
+    return [(r.pick([1, 2, 2, 2, 3, 4]), [r.pick(ASNS + EDGE_ASNS) for _ in range(r.below(4))]) for _ in range(n)]
 
 
 def attr(code, flags, payload, val=None):
@@ -217,21 +375,32 @@ def attr(code, flags, payload, val=None):
     return "(a %d %d %s)" % (code, flags, hexb(payload))
 
 
+def n_members(r, small, edge):
+    """list length: small most of the time, sometimes the sizes around the 255-octet payload boundary"""
+    return r.pick(edge) if r.chance(1, 20) else r.below(small)
+
+
 def gen_attrs(r):
     segs = gen_path(r)
-    items = [attr(1, 64, None, r.pick([0, 1, 2])), attr(2, 64 | (0x10 if r.chance(1, 12) and all(a for _, a in segs) else 0), enc_path(segs))]
+    origin = attr(1, 64, None, r.pick([0, 1, 2]))
+    path = attr(2, 64 | (0x10 if r.chance(1, 12) and all(a for _, a in segs) else 0), enc_path(segs))
+    # ORIGIN / AS_PATH may be missing: the vector the API builds for a locally originated route
+    k = r.below(28)
+    head = [path] if k == 0 else [origin] if k in (1, 2) else [] if k == 3 else [origin, path]
+    has_path = path in head
+    items = []
     if r.chance(1, 2):
-        items.append(attr(4, 128, None, r.pick([0, 5, 100, 4294967295, 4294967290])))
+        items.append(attr(4, 128, None, r.pick([0, 5, 100, 4294967295, 4294967290, 1, 2147483647, 2147483648])))
     if r.chance(1, 2):
-        items.append(attr(5, 64, None, r.pick([0, 100, 200])))
+        items.append(attr(5, 64, None, r.pick([0, 100, 200, 1, 4294967295])))
     if r.chance(1, 2):
-        cs = [r.pick(COMMS) for _ in range(r.below(4))]
+        cs = [r.pick(COMMS + list(WELL_KNOWN.values())) if r.chance(1, 3) else r.pick(COMMS) for _ in range(n_members(r, 4, [63, 64]))]
         items.append(attr(8, 192 | (0x20 if r.chance(1, 8) else 0), sum((be32(c) for c in cs), [])))
     if r.chance(1, 3):
-        es = [r.pick(EXTS) for _ in range(r.below(3))]
-        items.append("(a 16 192 x%s)" % "".join(es))
+        es = [r.pick(EXTS) for _ in range(n_members(r, 3, [31, 32]))]
+        items.append("(a 16 %d x%s)" % (192 | (0x10 if len(es) > 31 else 0), "".join(es)))
     if r.chance(1, 3):
-        ls = [r.pick(LARGES) for _ in range(r.below(3))]
+        ls = [r.pick(LARGES) for _ in range(n_members(r, 3, [21, 22]))]
         items.append(attr(32, 192, sum((be32(a) + be32(b) + be32(c) for a, b, c in ls), [])))
     if r.chance(1, 6):
         items.append("(a 6 64 x)")
@@ -240,13 +409,13 @@ def gen_attrs(r):
     if r.chance(1, 10):
         items.append(attr(9, 128, None, 16843009))
     # attribute order on the wire is free: shuffle the optional part
-    head, tail = items[:2], items[2:]
+    tail = items
     for i in range(len(tail) - 1, 0, -1):
         j = r.below(i + 1)
         tail[i], tail[j] = tail[j], tail[i]
     if r.chance(1, 4):
         head.reverse()
-    return head + tail, segs
+    return head + tail, (segs if has_path else None)
 
 
 def opt_addr(r, dom):
@@ -261,18 +430,24 @@ def gen_route(r):
     else:
         ra = r.pick([65001, 65002])
         la = r.pick([65001, 65002])
-        src = "(src (peer %d %d %s %s))" % (ra, la, r.pick(PEERS), r.pick(NEXTHOPS))
+        src = "(src (peer %d %d %s %s))" % (ra, la, r.pick(PROBE_PEERS), r.pick(NEXTHOPS))
     rp = r.pick(["none", "none", "nf", "invalid", "valid"])
     if rp == "valid" and not (segs and segs[-1][0] == 2 and segs[-1][1]):
         rp = "nf"
+    if segs is None:
+        rp = "none"         # a validation state is declared only for routes with an AS_PATH
+    _TARGETS.append((net, mask))
     return "(route %s (net %s %d) (attrs %s) (nh %s) (onh %s) (confed %s) (laddr %s) (paddr %s) (rpki %s))" % (
         src, net, mask, " ".join(attrs), opt_addr(r, NEXTHOPS), opt_addr(r, NEXTHOPS), r.pick(["f", "f", "t"]),
-        r.pick(NEXTHOPS), r.pick(PEERS), rp)
+        r.pick(NEXTHOPS), r.pick(PROBE_PEERS), rp)
 
 
 # ---------------------------------------------------------------- defined sets
 def gen_range(r, mask, width):
-    k = r.below(8)
+    """mask-length range of a prefix-set entry; half of them sit exactly on / next to the length t of a generated route"""
+    k = r.below(16)
+    fam = [m for a, m in _TARGETS if a.startswith("(6") == (width == 128)]
+    t = r.pick(fam) if fam and r.chance(3, 4) else r.pick(V6_MASKS if width == 128 else V4_MASKS)
     if k == 0:
         return (mask, mask)
     if k == 1:
@@ -280,43 +455,65 @@ def gen_range(r, mask, width):
     if k == 2:
         return (0, width)
     if k == 3:
-        return (24, 24)
+        return r.pick([(24, 24), (16, 24), (25, 32), (8, 16)])
     if k == 4:
-        return (16, 24)
+        return (r.pick([20, 30]), r.pick([10, 24]))   # possibly inverted / below own length
     if k == 5:
-        return (25, 32)
+        return (t, t)
     if k == 6:
-        return (8, 16)
-    return (r.pick([20, 30]), r.pick([10, 24]))   # possibly inverted / below own length
+        return (t + 1, width)                          # the route is one short of the range
+    if k == 7:
+        return (0, max(t, 1) - 1)                      # the route is one past the range
+    if k == 8:
+        return (t, width)
+    if k == 9:
+        return (0, t)
+    if k == 10:
+        return (max(t, 1) - 1, t + 1)
+    if k == 11:
+        return r.pick([(0, 0), (width, width), (width + 1, 255), (0, 255), (255, 255), (1, 1), (width - 1, width), (width, width + 1)])
+    if k == 12:
+        return (min(mask, t), max(mask, t))
+    return (mask, r.pick([mask, min(mask + 1, width), width]))
+
+
+def gen_elem(r, kind):
+    if kind == "prefix":
+        rel = related_entries()
+        if r.chance(1, 5):
+            a, m, w = r.pick([e for e in SET_PREFIXES if e[1] == 0])       # the 0/0 entries live in their own slot
+        else:
+            a, m, w = r.pick(rel) if rel and r.chance(1, 2) else r.pick(SET_PREFIXES)
+        lo, hi = gen_range(r, m, w)
+        return "(p %s %d %d %d)" % (a, m, lo, hi)
+    if kind == "neighbor":
+        return "(n %s %d)" % r.pick(NEIGHBOR_NETS)
+    if kind == "aspath":
+        k = r.below(10)
+        if k < 5:
+            return "(%s %d)" % (r.pick(["inc", "left", "orig", "only"]), r.pick(ASNS + [150, 200, 0, 4294967295]))
+        if k < 8:
+            lo, hi = r.pick([(65001, 65002), (100, 200), (65002, 65001), (200, 100), (0, 4294967295), (100, 100), (200, 200), (101, 199),
+                             (201, 4294967295), (0, 99), (4294967295, 4294967295), (0, 0), (65001, 65001)])
+            return "(%s %d %d)" % (r.pick(["rinc", "rleft", "rorig", "ronly"]), lo, hi)
+        return "(re %s)" % r.pick([".*", "^x$", "*bad", "[x"] if r.chance(1, 6) else [".*", "^x$"])
+    if kind == "comm":
+        if r.chance(1, 25):
+            return r.pick(COMM_BAD_PATS)
+        return r.pick(WK_PATS) if r.chance(1, 6) else r.pick(COMM_PATS)
+    if kind == "ext":
+        return r.pick(BAD_PATS) if r.chance(1, 25) else r.pick(EXT_PATS)
+    return r.pick(BAD_PATS) if r.chance(1, 25) else r.pick(LARGE_PATS)
 
 
 def gen_elems(r, kind, n=None):
     n = n if n is not None else r.pick([0, 1, 1, 2, 2, 3, 4])
-    out = []
-    for _ in range(n):
-        if kind == "prefix":
-            a, m, w = r.pick(SET_PREFIXES)
-            lo, hi = gen_range(r, m, w)
-            out.append("(p %s %d %d %d)" % (a, m, lo, hi))
-        elif kind == "neighbor":
-            a, m = r.pick(NEIGHBOR_NETS)
-            out.append("(n %s %d)" % (a, m))
-        elif kind == "aspath":
-            k = r.below(10)
-            if k < 5:
-                out.append("(%s %d)" % (r.pick(["inc", "left", "orig", "only"]), r.pick(ASNS + [150])))
-            elif k < 8:
-                lo, hi = r.pick([(65001, 65002), (100, 200), (65002, 65001), (0, 4294967295)])
-                out.append("(%s %d %d)" % (r.pick(["rinc", "rleft", "rorig", "ronly"]), lo, hi))
-            else:
-                out.append("(re %s)" % r.pick([".*", "^x$", "*bad"] if r.chance(1, 6) else [".*", "^x$"]))
-        elif kind == "comm":
-            out.append(r.pick(BAD_PATS) if r.chance(1, 25) else r.pick(COMM_PATS))
-        elif kind == "ext":
-            out.append(r.pick(BAD_PATS) if r.chance(1, 25) else r.pick(EXT_PATS))
-        else:
-            out.append(r.pick(BAD_PATS) if r.chance(1, 25) else r.pick(LARGE_PATS))
-    return "(" + " ".join(out) + ")"
+    return "(" + " ".join(gen_elem(r, kind) for _ in range(n)) + ")"
+
+
+def set_name(r, kind, free=True):
+    k = r.below(16)
+    return SHARED if k < 3 else FREE[kind] if k == 3 and free else r.pick(SET_NAMES[kind])
 
 
 # ---------------------------------------------------------------- statements
@@ -325,28 +522,35 @@ def gen_cond(r, kinds_bias=None):
     if k < 55:
         kind = r.pick(kinds_bias or KINDS)
         if kind in ("prefix", "neighbor"):
-            o = r.pick(["any", "any", "invert", "invert", "all"] if r.chance(1, 10) else ["any", "any", "invert"])
+            o = r.pick(["any", "any", "invert", "invert", "all"] if r.chance(1, 4) else ["any", "any", "invert"])
         else:
             o = r.pick(["any", "all", "invert"])
-        name = r.pick(SET_NAMES[kind]) if r.chance(15, 16) else "nosuch"
+        name = set_name(r, kind, free=False) if r.chance(15, 16) else "nosuch"
         return "(cset %s %s %s)" % (kind, name, o)
     if k < 60:
         return "(nexthop %s)" % " ".join(r.pick(NEXTHOPS) for _ in range(1 + r.below(2)))
     if k < 68:
-        return "(aslen %s %d)" % (r.pick(["eq", "ge", "le"]), r.pick([0, 1, 2, 3, 4, 254, 255, 256]))
+        return "(aslen %s %d)" % (r.pick(["eq", "ge", "le"]), r.pick([0, 1, 2, 3, 4, 5, 253, 254, 255, 256, 257, 374, 375, 376]))
     if k < 73:
         return "(rpki %s)" % r.pick(["nf", "valid", "invalid"])
     if k < 77:
-        return "(lpeq %d)" % r.pick([0, 100, 200, 300])
+        return "(lpeq %d)" % r.pick([0, 100, 200, 300, 1, 4294967295, 99, 101])
     if k < 82:
-        return "(medeq %d)" % r.pick([0, 5, 100, 15, 4294967295])
+        return "(medeq %d)" % r.pick([0, 5, 100, 15, 4294967295, 1, 2147483648, 4294967294, 6])
     if k < 86:
-        return "(origin %d)" % r.pick([0, 1, 2, 3])
+        return "(origin %d)" % r.pick([0, 1, 2, 3, 255])
     if k < 91:
         return "(rtype %s)" % r.pick(["internal", "external", "local"])
     if k < 96:
-        return "(ccount %s %d)" % (r.pick(["eq", "ge", "le"]), r.pick([0, 1, 2, 3]))
+        return "(ccount %s %d)" % (r.pick(["eq", "ge", "le"]), r.pick([0, 1, 2, 3, 4, 63, 64, 65]))
     return "(afi %s)" % " ".join(r.pick(["(1 1)", "(2 1)", "(1 128)"]) for _ in range(1 + r.below(2)))
+
+
+# MED `mod` deltas / `replace` values: 0, small, and every width boundary of the i64 -> u32 arithmetic
+# (i32 and u32 limits and their neighbours, sums that land exactly on 0 / -1 / u32::MAX / u32::MAX + 1, i64 limits)
+MED_EDGES = [2147483647, 2147483648, -2147483648, -2147483649, 9223372036854775807, -9223372036854775808, 4294967295, 4294967296]
+MED_DELTAS = [0, 10, -10, 5, -5, 95, 1, -1, -100, -101, -6, -4294967295, 4294967300, 4294967294, 4294967290,
+              4294967291, 4294967195, 4294967196, -4294967296, 2147483646, 9223372036854775800] + 2 * MED_EDGES
 
 
 def gen_action(r, allow_nh=True):
@@ -355,21 +559,21 @@ def gen_action(r, allow_nh=True):
     if k == "nh":
         return "(nh %s)" % r.pick(["self", "peer", "unchanged", "(addr %s)" % r.pick(NEXTHOPS)])
     if k == "comm":
-        return "(comm %s (%s))" % (r.pick(["add", "remove", "replace"]), " ".join(str(r.pick(COMMS)) for _ in range(r.below(3))))
+        return "(comm %s (%s))" % (r.pick(["add", "remove", "replace"]), " ".join(str(r.pick(COMMS)) for _ in range(n_members(r, 3, [60, 61, 63, 64]))))
     if k == "lp":
-        return "(lp %d)" % r.pick([0, 100, 200, 300, 4294967295])
+        return "(lp %d)" % r.pick([0, 100, 200, 300, 4294967295, 1])
     if k == "med":
-        return "(med %s %d)" % (r.pick(["mod", "mod", "replace"]),
-                                r.pick([0, 10, -10, 5, -5, 95, 4294967295, -4294967295, 4294967300, 9223372036854775807,
-                                        -9223372036854775808, 9223372036854775800]))
+        if r.chance(1, 3):
+            return "(med replace %d)" % r.pick([0, -1, 5, 4294967295, 4294967296, 4294967294, -9223372036854775808, 9223372036854775807])
+        return "(med mod %d)" % r.pick(MED_DELTAS)
     if k == "prep":
-        return "(prep %d %d %s)" % (r.pick(ASNS), r.pick([0, 1, 1, 2, 3, 3, 10, 256, 300]) if r.chance(7, 8) else 1, r.pick(["t", "f", "f"]))
+        return "(prep %d %d %s)" % (r.pick(ASNS), r.pick([0, 1, 1, 2, 3, 3, 10, 256, 300, 254, 255, 5]) if r.chance(7, 8) else 1, r.pick(["t", "f", "f"]))
     if k == "ext":
-        return "(ext %s (%s))" % (r.pick(["add", "remove", "replace"]), " ".join("x" + r.pick(EXTS) for _ in range(r.below(3))))
+        return "(ext %s (%s))" % (r.pick(["add", "remove", "replace"]), " ".join("x" + r.pick(EXTS) for _ in range(n_members(r, 3, [31, 32]))))
     if k == "large":
         return "(large %s (%s))" % (r.pick(["add", "remove", "replace"]),
-                                    " ".join("(%d %d %d)" % r.pick(LARGES) for _ in range(r.below(3))))
-    return "(origin %d)" % r.pick([0, 1, 2])
+                                    " ".join("(%d %d %d)" % r.pick(LARGES) for _ in range(n_members(r, 3, [21, 22]))))
+    return "(origin %d)" % (r.pick([0, 1, 2]) if r.chance(11, 12) else r.pick([3, 255]))
 
 
 def gen_stmt_body(r, allow_nh=True, kinds_bias=None, nconds=None):
@@ -392,7 +596,7 @@ def setup_ops(r, focus=None):
     ops = []
     kinds = KINDS if focus is None else focus
     for kind in KINDS:
-        for name in SET_NAMES[kind]:
+        for name in SET_NAMES[kind] + [SHARED]:
             if kind in kinds or r.chance(1, 2):
                 ops.append("(set-add %s %s %s)" % (kind, name, gen_elems(r, kind, n=1 + r.below(4))))
     ns = 2 + r.below(3)
@@ -408,10 +612,36 @@ def setup_ops(r, focus=None):
     return ops
 
 
+_CSET = None
+
+
+def guard_ops(r, ops):
+    """every way to take a referenced object away or to change it under its users: the set a statement of the case
+    refers to (delete, delete elements, replace, merge into), that statement, the policy that lists it"""
+    import re
+    global _CSET
+    _CSET = _CSET or re.compile(r"\(cset (\w+) (\S+) \w+\)")
+    refs = [(m.group(1), m.group(2), o.split(" ")[1]) for o in ops if o.startswith("(stmt-add ") for m in _CSET.finditer(o)]
+    refs = [x for x in refs if x[1] != "nosuch"]
+    if not refs:
+        return []
+    kind, name, stmt = r.pick(refs)
+    out = ["(set-del %s %s t ())" % (kind, name), "(set-del %s %s f %s)" % (kind, name, gen_elems(r, kind, n=1)),
+           "(set-replace %s %s %s)" % (kind, name, gen_elems(r, kind, n=2)), "(set-add %s %s %s)" % (kind, name, gen_elems(r, kind, n=1)),
+           "(stmt-del %s t () none ())" % stmt, "(stmt-del %s f () accept ())" % stmt,
+           "(stmt-add %s %s)" % (stmt, gen_stmt_body(r, nconds=1)),
+           "(pol-del %s t t ())" % r.pick(["p1", "p2"]), "(pol-add %s (%s))" % (r.pick(["p1", "p2"]), stmt)]
+    for i in range(len(out) - 1, 0, -1):
+        j = r.below(i + 1)
+        out[i], out[j] = out[j], out[i]
+    return out[:3 + r.below(len(out) - 2)]
+
+
 def churn_op(r):
     k = r.below(100)
     kind = r.pick(KINDS)
-    sname = r.pick(SET_NAMES[kind])
+    sname = set_name(r, kind)
+    stmts, pols = STMT_NAMES + [SHARED], POL_NAMES + [SHARED]
     if k < 12:
         return "(set-add %s %s %s)" % (kind, sname, gen_elems(r, kind))
     if k < 24:
@@ -419,36 +649,90 @@ def churn_op(r):
     if k < 38:
         return "(set-del %s %s %s %s)" % (kind, sname, r.pick(["t", "f", "f"]), gen_elems(r, kind))
     if k < 50:
-        return "(stmt-add %s %s)" % (r.pick(STMT_NAMES), gen_stmt_body(r, nconds=r.pick([0, 1, 1, 2])))
+        return "(stmt-add %s %s)" % (r.pick(stmts), gen_stmt_body(r, nconds=r.pick([0, 1, 1, 2])))
     if k < 62:
         body = gen_stmt_body(r, nconds=r.pick([0, 0, 1]))
-        return "(stmt-del %s %s %s)" % (r.pick(STMT_NAMES), r.pick(["t", "f", "f"]), body)
+        return "(stmt-del %s %s %s)" % (r.pick(stmts), r.pick(["t", "f", "f"]), body)
     if k < 72:
-        return "(pol-add %s (%s))" % (r.pick(POL_NAMES), " ".join(r.pick(STMT_NAMES + ["nosuch"]) for _ in range(r.below(3))))
+        return "(pol-add %s (%s))" % (r.pick(pols), " ".join(r.pick(stmts + ["nosuch"]) for _ in range(r.below(3))))
     if k < 84:
-        return "(pol-del %s %s %s (%s))" % (r.pick(POL_NAMES), r.pick(["t", "f"]), r.pick(["t", "f"]),
-                                            " ".join(r.pick(STMT_NAMES) for _ in range(r.below(3))))
+        return "(pol-del %s %s %s (%s))" % (r.pick(pols), r.pick(["t", "f"]), r.pick(["t", "f"]),
+                                            " ".join(r.pick(stmts) for _ in range(r.below(3))))
     if k < 90:
         return "(asg-add %s g2 %s (%s))" % (r.pick(["imp", "exp"]), r.pick(["accept", "reject", "pass"]),
-                                            " ".join(r.pick(POL_NAMES + ["nosuch"]) for _ in range(1 + r.below(2))))
+                                            " ".join(r.pick(pols + ["nosuch"]) for _ in range(r.pick([0, 1, 1, 1, 2, 2]))))
     if k < 95:
         return "(asg-set %s g3 %s (%s))" % (r.pick(["imp", "exp"]), r.pick(["accept", "reject"]),
-                                            " ".join(r.pick(POL_NAMES) for _ in range(r.below(3))))
-    return "(asg-del %s %s (%s))" % (r.pick(["imp", "exp"]), r.pick(["t", "f", "f"]), " ".join(r.pick(POL_NAMES) for _ in range(r.below(2))))
+                                            " ".join(r.pick(pols) for _ in range(r.below(3))))
+    return "(asg-del %s %s (%s))" % (r.pick(["imp", "exp"]), r.pick(["t", "f", "f"]), " ".join(r.pick(pols) for _ in range(r.below(2))))
+
+
+def free_set_ops(r):
+    """life cycle of a set nothing refers to: create, merge, delete single elements (present, absent, the 0/0 entries,
+    IPv6 entries, the last one), delete the rest, delete again"""
+    kind = r.pick(KINDS + ["prefix", "prefix"])
+    name = FREE[kind]
+    if kind == "prefix":
+        base = ["(p (4 0) 0 %d %d)" % r.pick([(0, 32), (8, 24), (0, 0)]), "(p (6 0) 0 %d %d)" % r.pick([(0, 128), (32, 64)]),
+                "(p %s 48 48 64)" % A6(V6B)]
+        keys = {"(4 0) 0", "(6 0) 0", A6(V6B) + " 48"}
+        while len(base) < 5:
+            e = gen_elem(r, kind)
+            key = " ".join(e.split(" ")[1:4])
+            if key not in keys:             # one range per prefix, else the whole call is refused
+                keys.add(key)
+                base.append(e)
+    else:
+        base = []
+        while len(base) < 4:
+            e = gen_elem(r, kind)
+            if e not in base and e not in BAD_PATS + COMM_BAD_PATS and "bad" not in e and "[" not in e:
+                base.append(e)
+    n1 = 1 + r.below(len(base) - 1)
+    first, second = base[:n1], base[n1:]
+    ops = ["(set-add %s %s (%s))" % (kind, name, " ".join(first)), "(set-add %s %s (%s))" % (kind, name, " ".join(second))]
+    if kind in ("aspath", "comm", "ext", "large") and r.chance(1, 3):
+        # a merge that fails half way through its element list must leave the set as it was
+        bad = "(re *bad)" if kind == "aspath" else r.pick(COMM_BAD_PATS if kind == "comm" else ["*bad", "rt:[", "[x"])
+        ops.insert(1, "(set-add %s %s (%s %s))" % (kind, name, second[0], bad))
+    order = list(base)
+    for i in range(len(order) - 1, 0, -1):
+        j = r.below(i + 1)
+        order[i], order[j] = order[j], order[i]
+    k = 1 + r.below(2)
+    ops.append("(set-del %s %s f (%s))" % (kind, name, " ".join(order[:k])))
+    ops.append("(set-del %s %s f (%s))" % (kind, name, " ".join([order[0], gen_elem(r, kind)])))     # gone already / never there
+    if kind in ("aspath", "comm", "ext", "large") and r.chance(1, 2):
+        # an element list that turns out invalid after its first member was looked at
+        bad = "(re *bad)" if kind == "aspath" else r.pick(COMM_BAD_PATS if kind == "comm" else ["*bad", "rt:[", "[x"])
+        ops.append("(set-del %s %s f (%s %s))" % (kind, name, order[-1], bad))
+    if r.chance(1, 2):
+        ops.append("(set-del %s %s f (%s))" % (kind, name, " ".join(order[k:])))                          # down to nothing
+    if r.chance(1, 3):
+        ops.append("(set-replace %s %s %s)" % (kind, name, gen_elems(r, kind, n=2)))
+    ops.append("(set-del %s %s t ())" % (kind, name))
+    ops.append("(set-del %s %s %s ())" % (kind, name, r.pick(["t", "f"])))
+    return ops
 
 
 def gen_case(r, tier):
     fl = r.below(100)
     nprobe = r.pick([2, 3, 3, 4])
+    del _TARGETS[:]
     probes = [gen_route(r) for _ in range(nprobe)]
     if fl < 45:
         focus = r.pick([None, ["prefix"], ["aspath"], ["comm", "ext", "large"], ["neighbor", "prefix"], ["aspath", "comm"]])
         ops = setup_ops(r, focus)
     elif fl < 85:
         ops = setup_ops(r, r.pick([None, ["prefix", "aspath"]]))
+        if r.chance(1, 3):
+            ops += guard_ops(r, ops)
         ops += [churn_op(r) for _ in range(2 + r.below(7))]
     else:
         ops = [churn_op(r) for _ in range(3 + r.below(10))]
+    if r.chance(1, 5):
+        at = r.below(len(ops) + 1)
+        ops = ops[:at] + free_set_ops(r) + ops[at:]
     if r.chance(1, 8):
         # unassign, rebuild the objects under the same names, assign again: nothing stale may survive
         sn = r.pick(STMT_NAMES[:2])
@@ -472,12 +756,12 @@ def gen_api_stmt_body(r, allow_nh=True):
         o = r.pick(["any", "invert"]) if kind in ("prefix", "neighbor") else r.pick(["any", "all", "invert"])
         if kind in ("prefix", "neighbor") and r.chance(1, 12):
             o = "all"
-        conds.append("(cset %s %s %s)" % (kind, r.pick(SET_NAMES[kind]) if r.chance(11, 12) else "nosuch", o))
+        conds.append("(cset %s %s %s)" % (kind, set_name(r, kind, free=False) if r.chance(11, 12) else "nosuch", o))
     for kind in ["prefix", "neighbor", "aspath"]:
         if r.chance(1, 4):
             cset(kind)
     if r.chance(1, 6):
-        conds.append("(aslen %s %d)" % (r.pick(["eq", "ge", "le"]), r.pick([0, 1, 2, 3, 255])))
+        conds.append("(aslen %s %d)" % (r.pick(["eq", "ge", "le"]), r.pick([0, 1, 2, 3, 254, 255, 256])))
     for kind in ["comm", "ext", "large"]:
         if r.chance(1, 5):
             cset(kind)
@@ -486,15 +770,15 @@ def gen_api_stmt_body(r, allow_nh=True):
     if r.chance(1, 6):
         conds.append("(rpki %s)" % r.pick(["nf", "valid", "invalid"]))
     if r.chance(1, 6):
-        conds.append("(lpeq %d)" % r.pick([0, 100, 200]))
+        conds.append("(lpeq %d)" % r.pick([0, 100, 200, 1, 4294967295]))
     if r.chance(1, 6):
-        conds.append("(medeq %d)" % r.pick([0, 5, 100]))
+        conds.append("(medeq %d)" % r.pick([0, 5, 100, 1, 4294967295]))
     if r.chance(1, 8):
         conds.append("(origin %d)" % r.pick([0, 1, 2]))
     if r.chance(1, 8):
         conds.append("(rtype %s)" % r.pick(["internal", "external", "local"]))
     if r.chance(1, 8):
-        conds.append("(ccount %s %d)" % (r.pick(["eq", "ge", "le"]), r.pick([0, 1, 2])))
+        conds.append("(ccount %s %d)" % (r.pick(["eq", "ge", "le"]), r.pick([0, 1, 2, 3, 64])))
     if r.chance(1, 10):
         conds.append("(afi %s)" % " ".join(r.pick(["(1 1)", "(2 1)", "(1 128)"]) for _ in range(1 + r.below(2))))
     acts = []
@@ -569,6 +853,7 @@ def dchurn_op(r, peers):
 
 
 def gen_dcase(r, tier):
+    del _TARGETS[:]
     probes = [gen_route(r) for _ in range(r.pick([2, 2, 3]))]
     npeer = r.pick([1, 2, 2, 3])
     peers = PEERS[:npeer]
@@ -589,8 +874,15 @@ def gen_dcase(r, tier):
             ops.append("(tbl %s)" % o)
     for p in peers:
         if r.chance(2, 3):
-            ops.append("(asg-add %s exp %s (%s))" % (p, r.pick(["accept", "reject"]), r.pick(["p1", "p2", "p2 p1", "p3"])))
+            first = r.pick(["p1", "p2", "p2 p1", "p3"])
+            ops.append("(asg-add %s exp %s (%s))" % (p, r.pick(["accept", "reject"]), first))
+            if r.chance(1, 3):
+                # AddPolicyAssignment accumulates: a second call for the same peer
+                ops.append("(asg-add %s exp %s (%s))" % (p, r.pick(["accept", "reject"]), r.pick([q for q in ["p1", "p2", "p3"] if q not in first] + ["p1"])))
     ops += [dchurn_op(r, peers) for _ in range(3 + r.below(8))]
+    if r.chance(1, 6):
+        at = r.below(len(ops) + 1)
+        ops = ops[:at] + ["(tbl %s)" % o for o in free_set_ops(r)] + ops[at:]
     return "(dcase (probes %s) (peers %s) (dops %s))" % (" ".join(probes), " ".join(peers), " ".join(ops))
 
 
